@@ -75,7 +75,16 @@ def _points(ctx, n, dim, sym, table, prefix='Q'):
     idx = range(n) if sym == 'all' else sym
     for i in idx:
         base[i][0] = ctx.num('%s%d' % (prefix, i))
+    _assume_distinct(ctx, base)
     return base
+
+
+def _assume_distinct(ctx, pts):
+    """precondition of the property: consecutive data points are distinct (a plain fact when two constants differ)"""
+    for a, b in zip(pts, pts[1:]):
+        if any(ctx.is_const(x) and ctx.is_const(y) and ctx.as_fraction(x) != ctx.as_fraction(y) for x, y in zip(a, b)):
+            continue
+        ctx.assume(ctx.any(*[ctx.ne(x, y) for x, y in zip(a, b)]))
 
 
 def _copy(pts):
@@ -125,7 +134,7 @@ def _pc_shapes(tier):
     for c in (False, True):
         for n in (3, 4, 5):
             out.append(dict(n=n, dim=2, centripetal=c, sym='all', table='net'))
-        out.append(dict(n=6, dim=2, centripetal=c, sym=[0, 5], table='net'))
+        out.append(dict(n=6, dim=2, centripetal=c, sym=[0, 5], table='net' if not c else 'lattice'))
         out.append(dict(n=4, dim=3, centripetal=c, sym='all', table='net'))
         out.append(dict(n=6, dim=3, centripetal=c, sym=[2], table='lattice'))
         out.append(dict(n=3, dim=2, centripetal=c, sym='free', table='net'))
@@ -148,8 +157,7 @@ def params_curve(ctx, n, dim, centripetal, sym, table):
     fit = ctx.geomdl('fitting')
     if sym == 'free':
         Q = [[ctx.num('Q%d_%d' % (i, d)) for d in range(dim)] for i in range(n)]
-        for a, b in zip(Q, Q[1:]):
-            ctx.assume(ctx.any(*[ctx.ne(x, y) for x, y in zip(a, b)]))
+        _assume_distinct(ctx, Q)
     else:
         Q = _points(ctx, n, dim, sym, table)
     uk = fit.compute_params_curve(_copy(Q), centripetal)
@@ -178,6 +186,10 @@ def _grid(ctx, su, sv, sym, bump=()):
             pts.append([ctx.lit(xs[u]), ctx.lit(ys[v]), ctx.lit(z)])
     for (u, v) in sym:
         pts[v + sv * u][2] = ctx.num('Q%d_%d' % (u, v))
+    for u in range(su):
+        _assume_distinct(ctx, [pts[v + sv * u] for v in range(sv)])
+    for v in range(sv):
+        _assume_distinct(ctx, [pts[v + sv * u] for u in range(su)])
     return pts
 
 
@@ -394,7 +406,7 @@ def normal_equations(p, kv, uk, Q, ncp):
 
 
 def _ac_shapes(tier):
-    out = [dict(m=5, p=2, ncp=4, dim=2, centripetal=False, sym='all', table='net'),
+    out = [dict(m=5, p=2, ncp=4, dim=2, centripetal=False, sym=[0, 2, 4], table='net'),
            dict(m=5, p=2, ncp=4, dim=2, centripetal=False, sym=[2], table='lattice'),
            dict(m=6, p=2, ncp=4, dim=2, centripetal=False, sym=[0, 5], table='lattice'),
            dict(m=6, p=2, ncp=5, dim=3, centripetal=False, sym=[2], table='lattice'),
